@@ -62,7 +62,7 @@ def docstring_for(style, params, returns, with_types=True):
     return "\n".join(lines)
 
 
-DOCSTYLES = ["none", "oneline", "rest", "rest_notypes", "google", "numpydoc"]
+DOCSTYLES = ["none", "oneline", "rest", "rest_notypes", "google", "numpydoc", "rest_partial", "google_partial", "rest_reversed"]
 BODIES = [
     ("pass", ["pass"]),
     ("two_stmts", ["x = 1  # trailing comment", "return x"]),
@@ -77,6 +77,10 @@ def render_def(kind, header_key, docstyle, body_key, name="f", indent=""):
     _, params_src, params, returns = next(h for h in HEADERS if h[0] == header_key)
     body = dict(BODIES)[body_key]
     style, with_types = ("rest", False) if docstyle == "rest_notypes" else (docstyle, True)
+    if docstyle in ("rest_partial", "google_partial"):
+        style, params = docstyle.split("_")[0], params[-1:]  # only the last parameter is documented
+    elif docstyle == "rest_reversed":
+        style, params = "rest", params[::-1]  # documented in the opposite order of the signature
 
     def block(ind, head_params, pars, rets, decorator=None, is_async=False, self_first=False):
         ps = head_params
